@@ -13,6 +13,9 @@
 /* ---- ghost state (nondeterministic statics under DFCC; never read by library code) ---- */
 /* generic witnesses: an arbitrary index / element position, fixed by the harness, never written by code */
 int verif_w, verif_k;
+/* C20 */
+size_t verif_keylen;  /* length of the NUL-terminated key handed to key2hash */
+#define SPEC_UP(c) (((c) >= 'a' && (c) <= 'z') ? (char)((c) - 32) : (char)(c))
 /* C15 */
 int verif_last_count; /* value returned by the last ep_speech_count() */
 int verif_vad_rate;   /* sample rate reported by the (assumed) VAD */
